@@ -31,6 +31,7 @@ class Sim:
 
     def __init__(self, encoding="utf-8"):
         self.failing_selects = 0
+        self.gave_up = False
         self.now = 1000.0
         self.actions = []  # [(at, seq, callable)] pending during the current request
         self._seq = 0
@@ -68,6 +69,7 @@ class Sim:
                     nxt = self.actions.pop(0)
             if nxt is None:
                 if deadline is None:
+                    self.gave_up = True  # the request is over as far as the harness is concerned (nothing may be injected any more)
                     raise WouldBlockForever()
                 self.now = max(self.now, deadline) + self.overshoot
                 if self.on_empty_return is not None:
